@@ -131,28 +131,28 @@ func fieldOfRow(r tableRow) string {
 	p := strings.Join(r.Path, "/")
 	key := p + "/" + r.Name
 	m := map[string]string{
-		"Overall repository size/Commits/Count":                 "unique_commit_count",
-		"Overall repository size/Commits/Total size":            "unique_commit_size",
-		"Overall repository size/Trees/Count":                   "unique_tree_count",
-		"Overall repository size/Trees/Total size":              "unique_tree_size",
-		"Overall repository size/Trees/Total tree entries":      "unique_tree_entries",
-		"Overall repository size/Blobs/Count":                   "unique_blob_count",
-		"Overall repository size/Blobs/Total size":              "unique_blob_size",
-		"Overall repository size/Annotated tags/Count":          "unique_tag_count",
-		"Overall repository size/References/Count":              "reference_count",
-		"Biggest objects/Commits/Maximum size":                  "max_commit_size",
-		"Biggest objects/Commits/Maximum parents":               "max_parent_count",
-		"Biggest objects/Trees/Maximum entries":                 "max_tree_entries",
-		"Biggest objects/Blobs/Maximum size":                    "max_blob_size",
-		"History structure/Maximum history depth":               "max_history_depth",
-		"History structure/Maximum tag depth":                   "max_tag_depth",
-		"Biggest checkouts/Number of directories":               "max_expanded_tree_count",
-		"Biggest checkouts/Maximum path depth":                  "max_path_depth",
-		"Biggest checkouts/Maximum path length":                 "max_path_length",
-		"Biggest checkouts/Number of files":                     "max_expanded_blob_count",
-		"Biggest checkouts/Total size of files":                 "max_expanded_blob_size",
-		"Biggest checkouts/Number of symlinks":                  "max_expanded_link_count",
-		"Biggest checkouts/Number of submodules":                "max_expanded_submodule_count",
+		"Overall repository size/Commits/Count":            "unique_commit_count",
+		"Overall repository size/Commits/Total size":       "unique_commit_size",
+		"Overall repository size/Trees/Count":              "unique_tree_count",
+		"Overall repository size/Trees/Total size":         "unique_tree_size",
+		"Overall repository size/Trees/Total tree entries": "unique_tree_entries",
+		"Overall repository size/Blobs/Count":              "unique_blob_count",
+		"Overall repository size/Blobs/Total size":         "unique_blob_size",
+		"Overall repository size/Annotated tags/Count":     "unique_tag_count",
+		"Overall repository size/References/Count":         "reference_count",
+		"Biggest objects/Commits/Maximum size":             "max_commit_size",
+		"Biggest objects/Commits/Maximum parents":          "max_parent_count",
+		"Biggest objects/Trees/Maximum entries":            "max_tree_entries",
+		"Biggest objects/Blobs/Maximum size":               "max_blob_size",
+		"History structure/Maximum history depth":          "max_history_depth",
+		"History structure/Maximum tag depth":              "max_tag_depth",
+		"Biggest checkouts/Number of directories":          "max_expanded_tree_count",
+		"Biggest checkouts/Maximum path depth":             "max_path_depth",
+		"Biggest checkouts/Maximum path length":            "max_path_length",
+		"Biggest checkouts/Number of files":                "max_expanded_blob_count",
+		"Biggest checkouts/Total size of files":            "max_expanded_blob_size",
+		"Biggest checkouts/Number of symlinks":             "max_expanded_link_count",
+		"Biggest checkouts/Number of submodules":           "max_expanded_submodule_count",
 	}
 	return m[key]
 }
